@@ -290,6 +290,10 @@ Section Proofs.
           unfold cids in Hin. rewrite map_app in Hin. apply in_app_or in Hin. destruct Hin as [Hin|[Hin|[]]].
           - apply A. exact Hin.
           - apply (Bq s0 eq_refl). symmetry. exact Hin. }
+        destruct (dispatch_drop_ignored (sa_state C s2)).
+        { assert (Hnd2 : NoDup (cids (replace C (t ++ [s0]) s2))) by (rewrite replace_cids; exact Hnd0).
+          cbn. split; [apply remove_cids_nodup; exact Hnd2|].
+          intros x Hx Hne. apply remove_other; [apply replace_other; [apply in_or_app; left; exact Hx|]|]; congruence. }
         split; [apply finish_nodup; assumption|].
         intros x Hx Hne. apply finish_frame; try assumption; [apply in_or_app; left; exact Hx|].
         destruct (finish_basic (t ++ [s0]) s2 rp Hnd0 Hin2 Hf2) as (_ & _ & Hh). rewrite Hh in Hne. congruence.
